@@ -18,33 +18,37 @@
 (* and each of them prints its transitions for the Go drivers in harness/evidence,     *)
 (* which replay them into the real Pool over a real chain / into real nodes.           *)
 (*                                                                                     *)
-(* WHAT IS SPECIFIED AND WHAT IS MIRRORED.  Acceptance (Recv, Cons, Check) is written  *)
-(* AS THE PROPERTY DEMANDS.  Where the statement leaves the behaviour open the module  *)
-(* mirrors the code so that specification and code stay in lock-step; these places are *)
-(* marked MIRROR.  Known places where the code is more permissive than the property    *)
-(* (found by the checks, see checks/C19.py) are marked CODE DIFFERS.                   *)
+(* WHAT IS SPECIFIED AND WHAT IS MIRRORED.  Acceptance (Recv, Cons, Check, Proposable)  *)
+(* is written AS THE PROPERTY DEMANDS.  Where the statement leaves the behaviour open  *)
+(* the module mirrors the code so that specification and code stay in lock-step; these *)
+(* places are marked MIRROR (the lazy pruning with its marks, the gossip list, the     *)
+(* moment at which evidence reported by consensus gets the facts of its height).       *)
 (*                                                                                     *)
-(* CODE DIFFERS, as found at the pinned revision (signatures reported by               *)
-(* harness/evidence).  index, fastCheck, cons and bytes are repaired by the patches    *)
-(* harness/evidence/patches/2, 3b, 3a and 1; stamp is recorded as a known finding      *)
-(* (patches/known-C19.json, suggested repair patches/3c-restamp.diff):                 *)
-(*   index      VerifyDuplicateVote ignores ValidatorIndex, which no signature covers: *)
-(*              one offence yields many acceptable evidences (different hashes)        *)
-(*              evidence:(recv|check|apply):accepted-invalid:index                     *)
-(*   fastCheck  CheckEvidence trusts whatever is pending: evidence of the height being *)
-(*              decided (from consensus, no block of that height yet) and expired      *)
-(*              evidence the lazy pruning still holds pass block validation, and       *)
-(*              PendingEvidence offers both to a proposer                              *)
+(* NO NAMED DEVIATION IS LEFT.  What the checks found at the pinned revision, all      *)
+(* repaired in /repo (the signatures are what harness/evidence reports if one of them  *)
+(* comes back):                                                                        *)
+(*   index      VerifyDuplicateVote ignored ValidatorIndex, which no signature covers: *)
+(*              one offence gave many acceptable evidences       [fix 17251a2]         *)
+(*              evidence:(recv|check|apply|verifyduplicatevote):accepted-invalid:index *)
+(*   cons       AddEvidenceFromConsensus ignored the committed marks [fix c9c6095]     *)
+(*              evidence:cons:added-although-committed                                 *)
+(*   fastCheck  CheckEvidence trusted whatever was pending and PendingEvidence offered *)
+(*              it: evidence of the height being decided, expired evidence the lazy    *)
+(*              pruning still held                                [fix c5c292c]        *)
 (*              evidence:(check|apply):accepted-invalid:(noheader|expired)             *)
 (*              evidence:pending-evidence:returns-(unverifiable|expired)               *)
-(*   cons       AddEvidenceFromConsensus does not look at the committed marks          *)
-(*              evidence:cons:added-although-committed                                 *)
-(* and end to end (MC_EvidenceNet on real nodes):                                      *)
-(*   bytes      CreateProposalBlock passes the evidence COUNT limit as byte limit:     *)
-(*              nothing is ever proposed       evidence:e2e:not-proposed               *)
-(*   stamp      tryAddVote states the median of the observer's OWN last commit and the *)
-(*              CURRENT validator set instead of the facts of the evidence height      *)
-(*              evidence:e2e:misstamped:(time|power|total):(late|cur-private-precommit)*)
+(*              evidence:e2e:proposed-unverifiable, evidence:e2e:sync-rejected:*       *)
+(*   bytes      CreateProposalBlock passed the evidence COUNT limit as byte limit:     *)
+(*              nothing was ever proposed                         [fix 657711a]        *)
+(*              evidence:e2e:not-proposed                                              *)
+(*   stamp      tryAddVote states the median of the observer's OWN last commit (and,   *)
+(*              for late precommits, stated the CURRENT validator set): the pool now   *)
+(*              restates evidence from consensus with the facts of the evidence height *)
+(*              - at once when that block exists, else when it is applied              *)
+(*              [fix 9931ec6]; late precommits are built with the set that cast them   *)
+(*              and a nil evidence is not handed to the pool      [fix 20320ea]        *)
+(*              evidence:e2e:misstamped:(time|power|total):(late|cur|cur-private-      *)
+(*              precommit), evidence:state:raw:*, evidence:cons:*                      *)
 (***************************************************************************************)
 EXTENDS Integers, Sequences, FiniteSets, TLC
 
@@ -108,14 +112,18 @@ ValidateBasic(e) == VoteBasicOK(e.a) /\ VoteBasicOK(e.b) /\ e.a.b < e.b.b
 (*  pend   : evidence in the database under "evidence-pending"                                             *)
 (*  comm   : evidence marked committed in the database                                                     *)
 (*  list   : the in-memory list the reactor gossips from (evidenceList)                                    *)
+(*  raw    : MIRROR - the part of pend that consensus reported for a height whose block does not exist yet  *)
+(*           and that is therefore still stored with the stamp consensus gave it (consensus/state.go         *)
+(*           tryAddVote: median of the observer's own last commit, current set), not with the facts of its  *)
+(*           height.  Evidence records of this module always carry the facts; `raw` says which of them the   *)
+(*           pool cannot recognise by that form yet.  Restated when the block of that height is applied.     *)
 (*  pruneH, pruneT : MIRROR of pruningHeight / pruningTime (when the oldest pending evidence expires)      *)
-EmptyPool(h) == [h |-> h, pend |-> {}, comm |-> {}, list |-> {}, pruneH |-> h, pruneT |-> T(h)]
+EmptyPool(h) == [h |-> h, pend |-> {}, comm |-> {}, list |-> {}, raw |-> {}, pruneH |-> h, pruneT |-> T(h)]
 
 (* pool.go isExpired / verify.go: BOTH ages must be exceeded *)
 Expired(st, h, ts) == (st.h - h > MaxAgeBlocks) /\ (T(st.h) - ts > MaxAgeDur)
 
 (* verify.go verify + VerifyDuplicateVote, as the property demands.  Returns "ok" or the first reason.     *)
-(* CODE DIFFERS: VerifyDuplicateVote never looks at ValidatorIndex (reason "index").                        *)
 Verify(st, e) ==
   LET h == EvH(e) IN
   IF ~(h \in 1..st.h) THEN "noheader"                      \* LoadBlockMeta(h) = nil (also: no validator set yet)
@@ -153,25 +161,31 @@ VerifyCore(e) ==
 (* "committed" (no-op, no error), "invalid" (ErrInvalidEvidence), "added".                                  *)
 Recv(st, e) ==
   IF ~ValidateBasic(e) THEN [st |-> st, res |-> "malformed", why |-> "basic"]
-  ELSE IF e \in st.pend THEN [st |-> st, res |-> "dup", why |-> "-"]
+  ELSE IF e \in st.pend \ st.raw THEN [st |-> st, res |-> "dup", why |-> "-"]
   ELSE IF e \in st.comm THEN [st |-> st, res |-> "committed", why |-> "-"]
-  ELSE LET w == Verify(st, e) IN
+  ELSE LET w == Verify(st, e) IN     \* (e \in raw: a height without block, refused like any such evidence)
        IF w # "ok" THEN [st |-> st, res |-> "invalid", why |-> w]
        ELSE [st |-> [st EXCEPT !.pend = @ \cup {e}, !.list = @ \cup {e}], res |-> "added", why |-> "-"]
 
 (* ---- Pool.AddEvidenceFromConsensus: the trusted path (no verification: consensus saw both votes).        *)
-(* CODE DIFFERS: the code does not look at the committed marks (result "committed" never occurs there).     *)
-Cons(st, e) ==
+(* `stamped` = consensus hands the evidence over with its own stamp rather than with the facts of the height *)
+(* (what real consensus does whenever its last-commit votes differ from the block's).  The pool states the   *)
+(* facts itself: at once when the block of the evidence height exists, otherwise (MIRROR) the evidence is    *)
+(* pending in its raw form until that block is applied (Update).                                             *)
+ConsS(st, e, stamped) ==
   IF e \in st.pend THEN [st |-> st, res |-> "dup", why |-> "-"]
   ELSE IF e \in st.comm THEN [st |-> st, res |-> "committed", why |-> "-"]
-  ELSE [st |-> [st EXCEPT !.pend = @ \cup {e}, !.list = @ \cup {e}], res |-> "added", why |-> "-"]
+  ELSE [st |-> [st EXCEPT !.pend = @ \cup {e}, !.list = @ \cup {e},
+                          !.raw = IF stamped /\ EvH(e) > st.h THEN @ \cup {e} ELSE @],
+        res |-> "added", why |-> "-"]
+Cons(st, e) == ConsS(st, e, FALSE)
 
 (* ---- Pool.CheckEvidence(list): the evidence of a proposed block (cstate.validateBlock).                  *)
 (* Items are processed in order; an item that is not pending yet is verified and stored as pending (in the  *)
 (* database only, MIRROR: not in the gossip list); the first failure aborts, earlier side effects stay.     *)
-(* As the property demands, EVERY item must be verifiable now, whether or not it is pending already.         *)
-(* CODE DIFFERS: fastCheck accepts whatever is pending without looking at it again (expired, committed, or  *)
-(* never verified because it came from consensus).                                                          *)
+(* As the property demands, EVERY item must be verifiable now, whether or not it is pending already (the     *)
+(* code's fastCheck skips the verification only for pending evidence whose block exists and which is not     *)
+(* expired: there the two coincide).                                                                         *)
 RECURSIVE CheckFrom(_, _, _)
 CheckFrom(st, l, k) ==
   IF k > Len(l) THEN [st |-> st, res |-> "ok", why |-> "-"]
@@ -191,18 +205,20 @@ PExpired(st, e) == Expired(st, EvH(e), e.ts)
 PruneNow(st) ==
   LET gone == {e \in st.pend : PExpired(st, e) /\ \A f \in st.pend : EvH(f) < EvH(e) => PExpired(st, f)}
       rest == st.pend \ gone
-  IN IF rest = {} THEN [st EXCEPT !.pend = rest, !.list = @ \ gone, !.pruneH = st.h, !.pruneT = T(st.h)]
+  IN IF rest = {} THEN [st EXCEPT !.pend = rest, !.list = @ \ gone, !.raw = @ \ gone, !.pruneH = st.h, !.pruneT = T(st.h)]
      ELSE LET m == CHOOSE e \in rest : \A f \in rest : EvH(e) <= EvH(f)
-          IN [st EXCEPT !.pend = rest, !.list = @ \ gone,
+          IN [st EXCEPT !.pend = rest, !.list = @ \ gone, !.raw = @ \ gone,
                         !.pruneH = EvH(m) + MaxAgeBlocks + 1, !.pruneT = m.ts + MaxAgeDur]
 
 (* ---- Pool.Update(state, block evidence): the block at height st.h+1 was applied.                         *)
 (* MIRROR: the code prunes lazily - only when the new height / time passed pruneH / pruneT (+1 s, which is  *)
 (* below one tick), i.e. one block after the oldest item expired.  Not a property violation by itself: the  *)
 (* consequences (proposing or accepting expired evidence) are what Check and the network model decide.      *)
+(* The restating of raw evidence of the applied height does NOT depend on the pruning marks.                 *)
 Update(st, l) ==
   LET S   == {l[k] : k \in 1..Len(l)}
-      st1 == [st EXCEPT !.h = @ + 1, !.comm = @ \cup S, !.pend = @ \ S, !.list = @ \ S]
+      st1 == [st EXCEPT !.h = @ + 1, !.comm = @ \cup S, !.pend = @ \ S, !.list = @ \ S,
+                        !.raw = {e \in @ : EvH(e) > st.h + 1}]    \* restampEvidenceOfHeight: unconditional
   IN IF st1.pend # {} /\ st1.h > st.pruneH /\ T(st1.h) > st.pruneT THEN PruneNow(st1) ELSE st1
 
 (* ---- BlockExecutor.ApplyBlock: validateBlock (CheckEvidence) then Update.                                *)
@@ -220,8 +236,6 @@ Restart(st) == LET p == PruneNow(st) IN [p EXCEPT !.list = p.pend]
 (* every correct node can verify NOW: the block of the evidence height exists and the evidence is not        *)
 (* expired.  The order is the key order of the database: height first; the order inside one height is by     *)
 (* hash and left open here.  `n` = number of items that fit under the byte limit.                            *)
-(* CODE DIFFERS: the code returns every pending item, also evidence of the height being decided (reported by *)
-(* consensus before that block exists) and expired items that the lazy pruning has not removed yet.          *)
 Proposable(st) == {e \in st.pend : EvH(e) <= st.h /\ ~PExpired(st, e)}
 IsPendingPrefix(st, s, n) ==
   LET P == Proposable(st) IN
